@@ -175,3 +175,115 @@ Proof.
 Qed.
 
 End L.
+
+(* ------------------------------------------------------------------ the nesting counter is the reference depth *)
+From PV Require Import Spec.FmtShape Spec.TokenDepth Proofs.WriterCursorD Proofs.TokenDepthProofs Proofs.AstWriterDepth.
+
+Lemma lua_binops_neutral : forallb neutral_pat lua_binops = true.
+Proof. vm_compute. reflexivity. Qed.
+Lemma lua_unops_neutral : forallb neutral_pat lua_unops = true.
+Proof. vm_compute. reflexivity. Qed.
+
+Section LD.
+Variable ts : list token.
+Local Notation len := (zlen ts).
+
+(* every non-empty white-space run that ends before the end of the list ends at a significant token i and was passed
+   the indent token_depth ts i *)
+Theorem program_depth root e :
+  lua_parse ts = Ok (root, e) -> consumed ts e = true -> writable ts root = true ->
+  no_short_else root = true -> no_trailing_sep root = true ->
+  exists cs, writer_chunks ts (view root) = Ok (cs, len) /\
+    forall s ind at_end run, In (Trivia s ind at_end run) cs -> run <> [] -> s + zlen run < len ->
+      sigb ts (s + zlen run) = true /\ ind = token_depth ts (s + zlen run).
+Proof.
+  intros Hp Hc Hw Hse Hts.
+  destruct (parse_shape ts lua_binops lua_unops lua_binops_nontrivia lua_unops_nontrivia root e Hp) as (He & Hsp & Hsh & fs & Hroot).
+  pose proof Hw as Hw0. unfold writable in Hw. repeat (apply andb_true_iff in Hw; destruct Hw as [Hw ?]).
+  assert (Hdom : dom ts root = true) by (unfold dom; repeat (apply andb_true_iff; split); assumption).
+  assert (HdomD : domD ts root = true) by (unfold domD; apply andb_true_iff; split; [apply andb_true_iff; split|]; assumption).
+  pose proof (walk_depth ts lua_binops lua_unops Hw lua_binops_ptok lua_unops_ptok lua_binops_neutral lua_unops_neutral
+                (tsize root) cChunk root (le_n _) Hsh HdomD) as Hwok.
+  destruct (consumed_nosig ts e Hc) as (_ & Hns).
+  assert (HS0 : St ts 0 = mk_dstate 0 0) by (unfold St, depth_before; destruct ts; reflexivity).
+  destruct (Hwok (2 * tdepth (view root) + 2)%nat 0 e 0 0 ltac:(lia) Hsp (okpos_0 ts) ltac:(intros; lia)
+              ltac:(rewrite HS0; reflexivity) ltac:(rewrite HS0; reflexivity)) as [Hem _].
+  destruct (Hem (mkW 0 0 [])) as (st1 & cs1 & E1 & P1 & _ & I1 & O1 & G1); [change (nearB ts 0 0 0); apply nearB_exact; lia | reflexivity|].
+  cbn [w_out] in O1. rewrite app_nil_r in O1.
+  subst root. rewrite view_node in *. unfold writer_chunks.
+  assert (Hat : AstWriter.all_trivia (skipn (Z.to_nat e) ts) = true).
+  { unfold consumed in Hc. apply andb_true_iff in Hc. destruct Hc as [_ Hc]. rewrite <- all_trivia_same. exact Hc. }
+  rewrite Hat. cbn [negb]. unfold seq. rewrite E1. unfold spaces_to. cbn [w_pos]. rewrite P1.
+  unfold ntok. rewrite trailing_run by (first [lia | exact Hns]).
+  eexists. split; [reflexivity|]. unfold rev'. rewrite <- rev_alt. cbn [w_out rev]. rewrite O1, rev_involutive.
+  intros s ind at_end run Hin Hne Hlt. apply in_app_or in Hin. destruct Hin as [Hin|[Hin|[]]].
+  - rewrite Forall_forall in G1. specialize (G1 _ Hin). cbn [goodD] in G1. destruct G1 as [G1|G1]; [contradiction | exact G1].
+  - exfalso. injection Hin as <- _ _ <-. rewrite trailing_run in Hlt by (first [lia | exact Hns]). lia.
+Qed.
+
+
+(* the white-space run whose text ends a prefix A of the chunk list: A is "after a run", so its last non-empty chunk is
+   a run; it ends where A ends, and its indent is last_ind *)
+Lemma after_last A : forall q m, tiling ts q A m -> after_trivia false A = true ->
+  exists s ind e run, run <> [] /\ In (Trivia s ind e run) A /\ s + zlen run = m /\ last_ind None A = Some ind.
+Proof.
+  induction A as [|c A IH] using rev_ind; intros q m Ht Ha; [discriminate Ha|].
+  destruct (tiling_app_inv ts _ _ _ _ Ht) as (m1 & Ht1 & Ht2).
+  rewrite after_trivia_app in Ha. rewrite last_ind_app.
+  destruct c as [s ind e [|t r] | j text]; cbn [after_trivia last_ind] in *.
+  - inversion Ht2; subst. match goal with H : tiling ts _ [] _ |- _ => inversion H; subst end.
+    destruct (IH _ _ Ht1 Ha) as (s' & ind' & e' & run' & Hne & Hin & Hm & Hl).
+    exists s', ind', e', run'. split; [exact Hne|]. split; [apply in_or_app; left; exact Hin|].
+    split; [change (zlen []) with 0; lia | exact Hl].
+  - inversion Ht2; subst. match goal with H : tiling ts _ [] _ |- _ => inversion H; subst end.
+    exists s, ind, (s + zlen (t :: r) =? zlen ts), (t :: r). split; [discriminate|].
+    split; [apply in_or_app; right; left; reflexivity|]. split; reflexivity.
+  - discriminate Ha.
+Qed.
+
+Lemma line_start_not_code (p q t' : list Z) c : p ++ NL :: q = t' ++ [c] -> c <> SP -> c <> NL -> forallb is_sp q = true -> False.
+Proof.
+  intros Ht Hc1 Hc2 Hsp. destruct q as [|cq q'] using rev_ind.
+  - apply app_inj_tail in Ht. destruct Ht as [_ Ht]. congruence.
+  - clear IHq'. change (p ++ NL :: q' ++ [cq]) with (p ++ (NL :: q') ++ [cq]) in Ht.
+    rewrite app_assoc in Ht. apply app_inj_tail in Ht. destruct Ht as [_ Ht]. subst cq.
+    rewrite all_sp_app in Hsp. apply andb_true_iff in Hsp. destruct Hsp as [_ Hsp]. cbn in Hsp.
+    rewrite andb_true_r in Hsp. unfold is_sp in Hsp. apply Z.eqb_eq in Hsp. contradiction.
+Qed.
+
+(* C10's indentation clause for whole programs: a code token i that begins a line of luafmt's output is preceded by
+   exactly indentwidth x (reference depth at token i) spaces *)
+Theorem program_indent w root e :
+  lua_parse ts = Ok (root, e) -> consumed ts e = true -> writable ts root = true -> codes_tidy ts = true ->
+  no_short_else root = true -> no_trailing_sep root = true ->
+  exists cs, writer_text (fmt_spaces w) ts (view root) = Ok (chunks_text (fmt_spaces w) cs) /\ codes_of cs = sig_codes ts 0 /\
+    forall A i text B p q, cs = A ++ Code i text :: B ->
+      chunks_text (fmt_spaces w) A = p ++ NL :: q -> noNL q -> forallb is_sp q = true ->
+      sigb ts i = true /\ 0 <= token_depth ts i /\ q = repeat SP (Z.to_nat w * Z.to_nat (token_depth ts i)).
+Proof.
+  intros Hp Hc Hw Ht Hse Htr.
+  destruct (program_chunks ts root e Hp Hc Hw Ht) as (cs & Hcs & Hcodes & Htil & Hsep & Hok & _ & Hne & Hind).
+  destruct (program_depth root e Hp Hc Hw Hse Htr) as (cs' & Hcs' & Hdep).
+  rewrite Hcs in Hcs'. injection Hcs' as <-.
+  exists cs. split; [unfold writer_text; rewrite Hcs; reflexivity|]. split; [exact Hcodes|].
+  intros A i text B p q HA Htxt Hq Hsp.
+  destruct (chunks_token_indent w cs A i text B p q HA Hsep Hok (Hne A i text B HA) Htxt Hq Hsp) as (ind & Hl & Hqq).
+  assert (Haft : after_trivia false A = true).
+  { destruct (after_trivia false A) eqn:Ea; [reflexivity|]. exfalso.
+    destruct (chunk_lines_inv w cs Hsep Hok A (Code i text :: B) HA (Hne A i text B HA)) as [H1 _].
+    cbv zeta in H1. destruct (H1 Ea) as [E0 | (t' & c & Et & Hc1 & Hc2)].
+    - rewrite E0 in Htxt. destruct p; discriminate Htxt.
+    - rewrite Et in Htxt. symmetry in Htxt. exact (line_start_not_code _ _ _ _ Htxt Hc1 Hc2 Hsp). }
+  rewrite HA in Htil. destruct (tiling_app_inv ts _ _ _ _ Htil) as (m & HtA & HtB).
+  assert (Hmi : m = i /\ i + 1 <= len).
+  { inversion HtB; subst. match goal with H : tiling ts (_ + 1) B _ |- _ => apply tiling_mono in H end. split; [reflexivity | lia]. }
+  destruct Hmi as [-> Hlt].
+  destruct (after_last A 0 i HtA Haft) as (s0 & ind0 & e0 & run0 & Hne0 & Hin0 & Hm0 & Hl0).
+  rewrite Hl in Hl0. injection Hl0 as <-.
+  assert (Hincs : In (Trivia s0 ind e0 run0) cs) by (rewrite HA; apply in_or_app; left; exact Hin0).
+  destruct (Hdep s0 ind e0 run0 Hincs Hne0 ltac:(lia)) as [Hsig Hd]. rewrite Hm0 in Hsig, Hd.
+  rewrite <- Hd. split; [exact Hsig|]. split; [|exact Hqq].
+  rewrite Forall_forall in Hind. exact (Hind _ Hincs).
+Qed.
+
+End LD.
